@@ -312,7 +312,16 @@ def check_tables(model, rep):
                     rep.violation('C09.lewis-table', f'row[{z:g}]', f'{y} is not within 0.004 of the published value {PUBLISHED[z]}', path)
             missing = sorted(set(ref) - {z for z, _ in got})
             rep.decide(not missing, 'C09.lewis-table', 'rows-complete', f'reference rows missing: {missing}', loc=path)
-    # --- interp1d call shape
+    # --- interp1d call shape (module constants used as aliases are expanded before a column name is looked for)
+    _consts = model.module_consts.get(mod, {})
+
+    def _expand(node, depth=0):
+        text = ast.unparse(node)
+        if depth < 3:
+            for x in ast.walk(node):
+                if isinstance(x, ast.Name) and x.id in _consts and x.id.isupper() and not isinstance(_consts[x.id], ast.Constant):
+                    text = text.replace(x.id, '(' + _expand(_consts[x.id], depth + 1) + ')')
+        return text
     call = model.const(mod, 'lewis_factor_function')
     ok, why = True, ''
     if not (isinstance(call, ast.Call) and ast.unparse(call.func).endswith('interp1d')):
@@ -323,9 +332,9 @@ def check_tables(model, rep):
         x = kw.get('x', pos[0] if pos else None)
         y = kw.get('y', pos[1] if len(pos) > 1 else None)
         src = {k: ast.unparse(v) for k, v in kw.items()}
-        if x is None or 'Number of teeth' not in ast.unparse(x):
+        if x is None or 'Number of teeth' not in _expand(x):
             ok, why = False, 'abscissae are not the teeth column'
-        elif y is None or 'Lewis Factor' not in ast.unparse(y):
+        elif y is None or 'Lewis Factor' not in _expand(y):
             ok, why = False, 'ordinates are not the Lewis-factor column'
         elif 'kind' in kw and not (isinstance(kw['kind'], ast.Constant) and kw['kind'].value in ('linear', 1)):
             ok, why = False, f'interpolation kind is {src["kind"]}, specified linear'
@@ -336,16 +345,14 @@ def check_tables(model, rep):
             if not (isinstance(fv, ast.Tuple) and len(fv.elts) == 2):
                 ok, why = False, 'fill_value is not the (first, last) pair'
             else:
-                a, b = ast.unparse(fv.elts[0]), ast.unparse(fv.elts[1])
+                a, b = _expand(fv.elts[0]), _expand(fv.elts[1])
                 first = ('[0]' in a) and ('Lewis Factor' in a)
                 last = ('[-1]' in b) and ('Lewis Factor' in b)
                 if not (first and last):
                     ok, why = False, f'fill_value does not clamp to the first/last table value ({a[:40]}, {b[:40]})'
     rep.decide(ok, 'C09.lewis-interp', 'lewis_factor_function', why, loc=f'{mod}:{getattr(call, "lineno", 0)}')
-    mn = model.const(mod, 'MINIMUM_TEETH_NUMBER')
-    s = ast.unparse(mn) if mn is not None else ''
-    rep.decide('Number of teeth' in s and '[0]' in s, 'C09.lewis-interp', 'MINIMUM_TEETH_NUMBER',
-               f'minimum teeth number is `{s[:80]}`, expected the first table row', loc=mod)
+    from checks.c19 import check_minimum_teeth
+    check_minimum_teeth(model, rep, R='C09.lewis-interp')
     # --- worm CSV
     path = 'gearpy/mechanical_objects/gear_data/worm_gear_and_wheel_data.csv'
     text = model.data.get(path)
